@@ -69,6 +69,7 @@ class Interp7(Interp):
         ext = {'__ctype_b_loc': self.ext_ctype_b_loc}
         ext.update(externals or {})
         Interp.__init__(self, mod, ext, opaque)
+        self.split_tables = True      # a digit table indexed by a nibble / remainder: one state per index value
         self.pre = {}      # (fn name, inst id) -> f(interp, st, inst, fn)
         self.post = {}     # (fn name, inst id) -> f(interp, states, inst, fn)
         self.ctype_checked = set()
@@ -280,6 +281,26 @@ def feasible(it, st, cons):
 # ----------------------------------------------------------------------------------------------
 # IR rules
 # ----------------------------------------------------------------------------------------------
+class RemProxy:
+    """`x - (x / B) * B` standing for `x % B`: looks like the urem/srem instruction to the rules (same id as the sub, so that
+    data dependences on it are found)"""
+
+    def __init__(self, sub, op, ops):
+        self._i = sub
+        self.op = op
+        self.ops = ops
+        self.id = sub.id
+        self.block = sub.block
+        self.fn = sub.fn
+        self.d = sub.d
+
+    def where(self):
+        return self._i.where()
+
+    def __getattr__(self, n):
+        return getattr(self._i, n)
+
+
 def find_divloops(f):
     """loops of the shape  do { emit(x % B); x /= B } : [dict(loop, phi, div, rems)]"""
     out = []
@@ -292,6 +313,18 @@ def find_divloops(f):
                     if d.op in ('udiv', 'sdiv') and d.ops[0].k == 'inst' and d.ops[0].id == ph.id:
                         rems = [i for b in L['blocks'] for i in b.insts if i.op in ('urem', 'srem') and
                                 i.ops[0].k == 'inst' and i.ops[0].id == ph.id]
+                        # the remainder written out as  x - (x / B) * B  with the quotient of this very division
+                        for b in L['blocks']:
+                            for i in b.insts:
+                                if i.op != 'sub' or not (i.ops[0].k == 'inst' and i.ops[0].id == ph.id) or i.ops[1].k != 'inst':
+                                    continue
+                                m = f.insts[i.ops[1].id]
+                                if m.op != 'mul':
+                                    continue
+                                q = [o for o in m.ops if o.k == 'inst' and o.id == d.id]
+                                k_ = [o for o in m.ops if not (o.k == 'inst' and o.id == d.id)]
+                                if len(q) == 1 and len(k_) == 1 and k_[0].key() == d.ops[1].key():
+                                    rems.append(RemProxy(i, 'urem' if d.op == 'udiv' else 'srem', [i.ops[0], d.ops[1]]))
                         out.append(dict(loop=L, phi=ph, div=d, rems=rems))
     return out
 
